@@ -6,6 +6,7 @@ against the device model (Device.tla) - a mistake here shows up as a `harness:` 
 from __future__ import annotations
 
 import asyncio
+import json
 import random
 from binascii import unhexlify
 from datetime import timedelta
@@ -235,3 +236,154 @@ def scenarios(rng: random.Random, n: int) -> list[dict]:
 
 def run_scenario(scn: dict) -> list[dict]:
     return E2ERun(scn).go()
+
+
+# ----------------------------------------------------------------------------------------
+# spec -> code: behaviours of Switcher.tla generated by TLC (Gen_Switcher) stepped through a real API object, the simulated
+# device and a real bridge; after every action what the user sees is compared with what the specification says it must see
+class GenRun:
+    """One TLC-generated behaviour of the end-to-end model.  beh = [{"a": action, "x": arguments, "exp": {running, view, read, air}}]"""
+
+    IDENT = {"id": [1, 2, 3], "key": 24, "name": [66], "ip": [10, 0, 0, 7], "mac": [1, 2, 3, 4, 5, 6]}      # Switcher!Dev0
+    CODE = {"heater": "V4", "plug": "POWER_PLUG", "shutter": "RUNNER", "thermo": "BREEZE"}
+
+    def __init__(self, beh: list[dict], fam: str, seed: int):
+        self.beh, self.fam = beh, fam
+        self.rng = random.Random(seed)
+        self.net = vnet.VNet()
+        self.loop = vnet.VLoop(self.net)
+        self.mismatch: list[dict] = []
+
+    def run(self) -> list[dict]:
+        import warnings
+        try:
+            with warnings.catch_warnings(), frozen(1790553600.25):
+                warnings.simplefilter("ignore")
+                self.loop.run_until_complete(self._main())
+        finally:
+            self.loop.close()
+        return self.mismatch
+
+    def _miss(self, n, a, what, want, got):
+        self.mismatch.append({"step": n, "action": a, "what": what, "expected": want, "observed": got})
+
+    async def _main(self):
+        from aioswitcher.api import Command, SwitcherType1Api, SwitcherType2Api
+        from aioswitcher.api.remotes import SwitcherBreezeRemote
+        from aioswitcher.bridge import SwitcherBridge
+        from aioswitcher.device import DeviceState, ThermostatFanLevel, ThermostatMode, ThermostatSwing
+        from .tcpdrive import _result_fields
+        fam = self.fam
+        sim = Sim(fam, self.CODE[fam], self.rng)
+        sim.id, sim.key, sim.name, sim.ip, sim.mac = (list(self.IDENT["id"]), self.IDENT["key"], list(self.IDENT["name"]),
+                                                      list(self.IDENT["ip"]), list(self.IDENT["mac"]))
+        t1 = fam in ("heater", "plug")
+        host, port = "10.5.5.6", 9957 if t1 else 10000
+        self.net.listen(host, port, True)
+        querying = [False]
+
+        def on_write(conn, data):
+            sim.apply(data)
+            if data[6:8] == b"\x01\x03" and len(data) == 48 and querying[0]:
+                rep = sim.state_reply()
+            elif data[4:6] == b"\x03\x05" and data[6:8] == b"\x01\x03":
+                rep = sim.thermo_reply()
+            else:
+                rep = bytes(self.rng.randbytes(56))
+            conn.loop.call_soon(conn.feed, rep)
+        self.net.on_write_hook = on_write
+        seen: list[dict] = []
+        udp_port = 20002 if t1 else 20003
+        bridge = SwitcherBridge(lambda d: seen.append(device_fields(d)), [udp_port])
+        api = (SwitcherType1Api if t1 else SwitcherType2Api)(host, bytes(sim.id).hex(), f"{sim.key:02x}")
+        await api.connect()
+        M = {1: ThermostatMode.AUTO, 2: ThermostatMode.DRY, 3: ThermostatMode.FAN, 4: ThermostatMode.COOL, 5: ThermostatMode.HEAT}
+        F = {0: ThermostatFanLevel.AUTO, 1: ThermostatFanLevel.LOW, 2: ThermostatFanLevel.MEDIUM, 3: ThermostatFanLevel.HIGH}
+        air: list[bytes] = []
+        view = None          # what the callback last received
+        read = None          # what the last state query returned (forgotten at the next command, as in the model)
+        for n, st in enumerate(self.beh):
+            a, x, exp = st["a"], st["x"], st["exp"]
+            try:
+                if a == "Control":
+                    await api.control_device(Command.ON if x["on"] else Command.OFF, x["minutes"])
+                    air, read = [], None
+                elif a == "SetAutoOff":
+                    await api.set_auto_shutdown(timedelta(seconds=x["secs"]))
+                    air, read = [], None
+                elif a == "SetPosition":
+                    await api.set_position(x["pos"])
+                    air, read = [], None
+                elif a == "StopShutter":
+                    await api.stop()
+                    air, read = [], None
+                elif a == "TellThermo":
+                    await api.control_breeze_device(SwitcherBreezeRemote(IRSET), DeviceState.ON if x["state"] else DeviceState.OFF, M[x["mode"]],
+                                                    x["temp"], F[x["fan"]], ThermostatSwing.ON if x["swing"] else ThermostatSwing.OFF, update_state=True)
+                    air, read = [], None
+                elif a == "Query":
+                    op = "get_state" if t1 else ("get_shutter_state" if fam == "shutter" else "get_breeze_state")
+                    querying[0] = True
+                    try:
+                        read = _result_fields(op, await getattr(api, op)(), {})
+                    finally:
+                        querying[0] = False
+                elif a == "Elapse":
+                    sim.elapse(x["s"])
+                elif a == "Broadcast":
+                    air.append(sim.broadcast())
+                elif a == "Lose":
+                    air.pop(0)
+                elif a == "Deliver":
+                    seen.clear()
+                    self.net.send_udp(self.loop, udp_port, air.pop(0))
+                    await vnet.settle(8)
+                    if len(seen) != 1:
+                        self._miss(n, a, "C05:e2e-one-device-per-broadcast", 1, len(seen))
+                        return
+                    view = seen[0]
+                elif a == "Start":
+                    await vnet.settle(3)
+                    await bridge.start()
+                elif a == "Stop":
+                    await bridge.stop()
+                    await vnet.settle(3)
+            except Exception as exc:  # noqa: BLE001 - every action of the model succeeds: an exception is a mismatch
+                self._miss(n, a, "C02:e2e-action-raised" if a not in ("Query", "Deliver", "Start", "Stop") else
+                           ("C08:e2e-action-raised" if a == "Query" else "C17:e2e-action-raised"), "returns", type(exc).__name__)
+                return
+            if bool(bridge.is_running) != bool(exp["running"]):
+                self._miss(n, a, "C17:e2e-running-flag", exp["running"], bool(bridge.is_running))
+            if exp["view"].get("state") != -1 or len(exp["view"]) > 1:
+                got = {k: (view or {}).get(k) for k in exp["view"]}
+                if got != exp["view"]:
+                    self._miss(n, a, "C05:e2e-device-handed-to-the-callback", exp["view"], got)
+            if len(exp["read"]) > 1:
+                got = {k: (read or {}).get(k) for k in exp["read"]}
+                if got != exp["read"]:
+                    self._miss(n, a, "C08:e2e-state-query-result", exp["read"], got)
+            if self.mismatch:
+                return
+        await api.disconnect()
+        await bridge.stop()
+        await vnet.settle(3)
+
+
+def gen_replay(ctx_seed: int, num: int, quick: bool) -> dict:
+    """Behaviours of Gen_Switcher for the four device families, replayed; returns {"info", "behaviours", "steps", "mismatches"}."""
+    from . import tlcgen
+    mism, nb, ns, infos = [], 0, 0, []
+    for fi, fam in enumerate(("heater", "plug", "shutter", "thermo")):
+        behs, info = tlcgen.behaviours("Gen_Switcher", f"Gen_Switcher_{fam}.cfg", 8 * num, 30, (ctx_seed + fi) % 100000)
+        infos.append(info)
+        # the simulator walks at random: keep the behaviours in which the user sees most (broadcasts delivered, queries answered)
+        behs.sort(key=lambda b: -(3 * sum(1 for s in b if s["a"] == "Deliver") + sum(1 for s in b if s["a"] == "Query")
+                                  + 2 * len({json.dumps(s["exp"]["view"], sort_keys=True) for s in b})))
+        for k, b in enumerate(behs[:num]):
+            mm = GenRun(b, fam, ctx_seed + k).run()
+            nb += 1
+            ns += len(b)
+            for m in mm:
+                m.update(behaviour=nb, family=fam, beh=b, beh_seed=ctx_seed + k, trace=[[s["a"], s["x"]] for s in b[: m["step"] + 1]])
+            mism.extend(mm)
+    return {"info": {"module": "Gen_Switcher", "behaviours": nb, "states": sum(i["states"] for i in infos)}, "behaviours": nb, "steps": ns, "mismatches": mism}
